@@ -175,6 +175,15 @@ func checkLongestArgmax(p *load.Program, r *kit.Report, workF *types.Var) {
 		return
 	}
 	cmps := kit.CallsTo(f, bigInt+".Cmp")
+	viaIsLonger := false
+	if len(cmps) == 0 {
+		// the comparison may be delegated to Branch.IsLonger (checked on its own below)
+		if ils := kit.CallsTo(f, H+".Branch.IsLonger"); len(ils) == 1 {
+			cmps = ils
+			viaIsLonger = true
+			checkIsLonger(p, r, workF)
+		}
+	}
 	if len(cmps) != 1 {
 		r.Unknown("ARGMAX", "Branches.Longest/cmp", "-", "expected one (*big.Int).Cmp call, found %d", len(cmps))
 		return
@@ -231,7 +240,15 @@ func checkLongestArgmax(p *load.Program, r *kit.Report, workF *types.Var) {
 	}
 	recv, arg := cmp.Call.Args[0], cmp.Call.Args[1]
 	var candIsRecv bool
+	isSel := func(v ssa.Value) bool { _, ok := kit.Strip(v).(*ssa.Phi); return ok }
 	switch {
+	case viaIsLonger && isElem(kit.Strip(recvPtr(recv))) && isSel(arg):
+		candIsRecv = true
+	case viaIsLonger && isSel(recvPtr(recv)) && isElem(kit.Strip(arg)):
+		candIsRecv = false
+	case viaIsLonger:
+		r.Bad("ARGMAX", "Branches.Longest/cmp", posOf(p, cmp), "IsLonger does not compare the candidate with the incumbent (operands: %s, %s)", describe(recv), describe(arg))
+		return
 	case fromElem(recv) && fromPhi(arg):
 		candIsRecv = true
 	case fromPhi(recv) && fromElem(arg):
@@ -241,6 +258,10 @@ func checkLongestArgmax(p *load.Program, r *kit.Report, workF *types.Var) {
 		return
 	}
 	gs := kit.FindGuards(f, func(c ssa.Value) (bool, bool) {
+		if viaIsLonger {
+			// cand.IsLonger(inc): replace when true; inc.IsLonger(cand): replace when false (≥)
+			return c == ssa.Value(cmp), candIsRecv
+		}
 		b, ok := c.(*ssa.BinOp)
 		if !ok || b.X != ssa.Value(cmp) {
 			return false, false
@@ -282,15 +303,15 @@ func checkLongestArgmax(p *load.Program, r *kit.Report, workF *types.Var) {
 		}
 		break
 	}
-	op := b.(*ssa.BinOp).Op
-	if op == token.EQL || op == token.NEQ {
-		r.Bad("ARGMAX", "Branches.Longest/cmp", posOf(p, cmp), "work comparison uses %s: not an ordering", op)
-		return
+	if !viaIsLonger {
+		op := b.(*ssa.BinOp).Op
+		if op == token.EQL || op == token.NEQ {
+			r.Bad("ARGMAX", "Branches.Longest/cmp", posOf(p, cmp), "work comparison uses %s: not an ordering", op)
+			return
+		}
 	}
 	// polarity under mirror: replacing on "cand < inc" is the inverted selection
 	replace := gs[0].PassEdge()
-	strictLess := (candIsRecv && (op == token.LSS || op == token.LEQ)) || (!candIsRecv && (op == token.GTR || op == token.GEQ))
-	_ = strictLess
 	// every phi edge that installs the element must come from a block dominated by the replace
 	// edge or by the `result == nil` edge; at least one must come through the replace edge.
 	nilGs := kit.FindGuards(f, func(c ssa.Value) (bool, bool) {
@@ -439,6 +460,20 @@ func checkLongestArgmax(p *load.Program, r *kit.Report, workF *types.Var) {
 			}
 			if !matched {
 				ok, why = false, "the work the candidates are compared with is not updated together with the selection (it can belong to another branch)"
+			}
+		}
+	}
+	// no candidate is passed over without its work having been compared: from the start of an
+	// iteration the next one is reached only through the comparison or the first-element seed
+	if ok {
+		if header, body := loopBodyEntry(f, cmp); header != nil && body != nil {
+			nilSeed := map[kit.Edge]bool{}
+			for _, e := range edgesOf(nilGs, true) {
+				nilSeed[e] = true
+			}
+			rr := kit.Reach(f, []kit.Pt{{B: body, I: 0}}, kit.Opts{StopAt: kit.InstrSet(cmp), BlockEdge: func(e kit.Edge) bool { return nilSeed[e] }})
+			if rr.Has(header.Instrs[0]) {
+				ok, why = false, "a candidate can be passed over without its accumulated work being compared with the incumbent's ("+rr.PathTo(header.Instrs[0], p.Pos)+"): a branch with fewer headers but more work never becomes the tip"
 			}
 		}
 	}
@@ -1205,4 +1240,35 @@ func checkLinkFirst(p *load.Program, r *kit.Report, rule string) {
 		bad = "no element of the list is stored as parent"
 	}
 	r.Check(bad == "", rule, "Branch.Link/first-match", posOf(p, at), "b.parent is the first branch of the list that knows the previous hash (the loop ends there)", bad)
+}
+
+
+// checkIsLonger: Branch.IsLonger(right) is b.Last().AccumulatedWork.Cmp(right.Last().AccumulatedWork) > 0.
+func checkIsLonger(p *load.Program, r *kit.Report, workF *types.Var) {
+	f := fn(p, r, "ARGMAX", H, "Branch.IsLonger")
+	if f == nil {
+		return
+	}
+	bad := ""
+	cmps := kit.CallsTo(f, bigInt+".Cmp")
+	if len(cmps) != 1 || len(f.Params) < 2 {
+		bad = "expected one (*big.Int).Cmp call"
+	} else {
+		cmp := cmps[0].(*ssa.Call)
+		from := func(v ssa.Value, prm *ssa.Parameter) bool {
+			return loadOfField(v, workF) && kit.DependsOn(v, func(x ssa.Value) bool { return kit.Strip(x) == ssa.Value(prm) || x == ssa.Value(prm) })
+		}
+		if !from(cmp.Call.Args[0], f.Params[0]) || !from(cmp.Call.Args[1], f.Params[1]) {
+			bad = "IsLonger does not compare the receiver's accumulated work with the argument's"
+		}
+		for _, ret := range kit.Returns(f) {
+			b, ok := kit.RetOperand(ret, 0).(*ssa.BinOp)
+			if !ok || b.X != ssa.Value(cmp) || b.Op != token.GTR {
+				bad = "IsLonger is not `Cmp(...) > 0`"
+			} else if z, isC := kit.ConstInt(b.Y); !isC || z != 0 {
+				bad = "IsLonger is not `Cmp(...) > 0`"
+			}
+		}
+	}
+	r.Check(bad == "", "ARGMAX", "Branch.IsLonger/cmp", posOf(p, f.Blocks[0].Instrs[0]), "receiver's Last().AccumulatedWork.Cmp(argument's) > 0", bad)
 }
